@@ -473,3 +473,99 @@ def k_day_nine_star(eng, route, early):
         if qs and r["characterisation"]["all_hold"]:
             r["role"] = "day-nine-star-before-the-first-turning-day-counts-back-from-it"
     return _finish(r, holder["ctx"]) if "ctx" in holder else r
+
+
+def k_direction_element(eng):
+    """Direction::get_element: the element of the trigram seated in each of the nine palaces (Later-Heaven arrangement): 坎 north water,
+    坤 south-west earth, 震 east wood, 巽 south-east wood, centre earth, 乾 north-west metal, 兑 west metal, 艮 north-east earth, 离 south fire.
+    The name order of both tables is read from the source, the rule is stated on names."""
+    import re as _re
+    holder = {}
+    RULE = {"北": "水", "西南": "土", "东": "木", "东南": "木", "中": "土", "西北": "金", "西": "金", "东北": "土", "南": "火"}
+
+    def names(key):
+        src = open(os.path.join(REPO, "src/tyme/culture/mod.rs"), encoding="utf-8").read()
+        m = _re.search(r"pub static %s: \[&str; \d+\] = \[(.*?)\];" % key, src, _re.S)
+        if not m:
+            raise Unsupported(key + " not found in the source")
+        return _re.findall(r'"([^"]*)"', m.group(1))
+
+    def build(eng):
+        dn, en = names("DIRECTION_NAMES"), names("ELEMENT_NAMES")
+        if sorted(dn) != sorted(RULE) or sorted(en) != sorted(set(RULE.values())):
+            raise Unsupported("direction / element name tables differ from the nine palaces and five elements")
+        fn = M.find_fn(eng.fns, "get_element", "&Direction")
+        ctx = _ctx(eng, {})
+        holder.update(ctx=ctx)
+        d = ctx.fresh_value("direction", "usize")
+        paths = ctx.run(fn, [Obj("Direction", d)])
+        want = [en.index(RULE[n]) for n in dn]
+        acc = str(want[-1])
+        for k in range(len(want) - 2, -1, -1):
+            acc = "(ite (= %s %d) %d %s)" % (d.s, k, want[k], acc)
+        return ctx, paths, ["(<= 0 %s 8)" % d.s], (lambda p: [("element-of-the-palace", "(= %s %s)" % (p.ret.idx.s, acc))]), lambda p: _kind(p, "Element")
+
+    def replay(eng, model):
+        try:
+            k = int([v for n, v in model.items() if "direction" in n][0])
+        except Exception as e:
+            return False, "model incomplete %r" % e
+        nat = eng.native("direction_element", k)
+        dn, en = names("DIRECTION_NAMES"), names("ELEMENT_NAMES")
+        want = en.index(RULE[dn[k]])
+        return (nat != str(want)), "Direction %s has element index %s, expected %d (%s)" % (dn[k], nat, want, RULE[dn[k]])
+
+    r = run_kernel(eng, "19.i/B/direction-element", "19.i", "all 9 directions", build, None, replay)
+    return _finish(r, holder["ctx"]) if "ctx" in holder else r
+
+
+def k_name_table(eng, owner, method, result, rule, clause="19.k"):
+    """owner::method maps cycle `owner` to cycle `result`; `rule` = {owner element name: result element name}, stated on names — the index
+    order of both name tables is read from the source"""
+    import re as _re
+    holder = {}
+
+    def names(key):
+        src = open(os.path.join(REPO, "src/tyme/culture/mod.rs"), encoding="utf-8").read()
+        m = _re.search(r"pub static %s_NAMES: \[&str; \d+\] = \[(.*?)\];" % key.upper(), src, _re.S)
+        if not m:
+            raise Unsupported(key + " name table not found in the source")
+        return _re.findall(r'"([^"]*)"', m.group(1))
+
+    def build(eng):
+        on, rn = names(owner), names(result)
+        if sorted(on) != sorted(rule) or not set(rule.values()) <= set(rn):
+            raise Unsupported("%s / %s name tables differ from the rule's names" % (owner, result))
+        fn = M.find_fn(eng.fns, method, "&" + owner)
+        ctx = _ctx(eng, {})
+        holder.update(ctx=ctx, on=on, rn=rn)
+        d = ctx.fresh_value(owner.lower(), "usize")
+        paths = ctx.run(fn, [Obj(owner, d)])
+        want = [rn.index(rule[n]) for n in on]
+        acc = str(want[-1])
+        for k in range(len(want) - 2, -1, -1):
+            acc = "(ite (= %s %d) %d %s)" % (d.s, k, want[k], acc)
+        return ctx, paths, ["(<= 0 %s %d)" % (d.s, len(on) - 1)], (lambda p: [("by-name", "(= %s %s)" % (p.ret.idx.s, acc))]), lambda p: _kind(p, result)
+
+    def replay(eng, model):
+        try:
+            k = int([v for n, v in model.items() if owner.lower() in n][0])
+        except Exception as e:
+            return False, "model incomplete %r" % e
+        nat = eng.native("name_table", [x[0] + "::" + x[1] for x in NAME_RULES].index(owner + "::" + method), k)
+        on, rn = holder["on"], holder["rn"]
+        want = rn.index(rule[on[k]])
+        return (nat != str(want)), "%s %s: %s gives index %s, expected %d (%s)" % (owner, on[k], method, nat, want, rule[on[k]])
+
+    r = run_kernel(eng, "%s/B/%s-%s" % (clause, owner.lower(), method.replace("get_", "")), clause, "all %d elements" % len(rule), build, None, replay)
+    return _finish(r, holder["ctx"]) if "ctx" in holder else r
+
+
+NAME_RULES = [
+    # the nine fields of heaven sit in the nine palaces (Lüshi Chunqiu, 有始览)
+    ("Land", "get_direction", "Direction", {"玄天": "北", "朱天": "西南", "苍天": "东", "阳天": "东南", "钧天": "中", "幽天": "西北", "颢天": "西", "变天": "东北", "炎天": "南"}),
+    # four palaces and their divine beasts
+    ("Zone", "get_beast", "Beast", {"东": "青龙", "北": "玄武", "西": "白虎", "南": "朱雀"}),
+    # nine 20-year periods, three per 60-year epoch (upper / middle / lower)
+    ("Twenty", "get_sixty", "Sixty", {"一运": "上元", "二运": "上元", "三运": "上元", "四运": "中元", "五运": "中元", "六运": "中元", "七运": "下元", "八运": "下元", "九运": "下元"}),
+]
